@@ -9,6 +9,7 @@
 #include <stdio.h>
 #include <stdlib.h>
 #include <string.h>
+#include <errno.h>
 #include <stdint.h>
 #include <limits.h>
 #include <math.h>
@@ -19,6 +20,103 @@
 #include "scanctx.h"
 #include "grammar.h"
 #include "scanner.h"
+
+/* ---- BEGIN C03: traps and captures for "reading arbitrary bytes never kills the process" ----
+ * - exit() called from library code is trapped (link with -Wl,--wrap=exit): the protocol line
+ *   becomes "EXIT-CALLED <status>" and the process ends with status 77;
+ * - whatever the library writes to stdout/stderr during a read is captured (the descriptors
+ *   are pointed at scratch files for the duration of the call) and reported as
+ *   "STRAY-STDOUT <hex>" / "STRAY-STDERR <hex>" after the result;
+ * - every operation runs under alarm(): a hang becomes "TIMEOUT" and status 78;
+ * - AddressSanitizer reports keep going to the original stderr (a UBSan report made while stderr
+ *   is captured stays in the scratch file .c03-stderr, where tools/props_c03.py picks it up);
+ * - with -fsanitize-coverage=trace-pc the basic blocks executed are counted (op "cov").
+ */
+#include <fcntl.h>
+#include <signal.h>
+int __lsan_do_recoverable_leak_check(void) __attribute__((weak));
+void __sanitizer_set_report_fd(void *) __attribute__((weak));
+
+static int c03_out = -1, c03_err = -1;          /* the real stdout / stderr */
+static int c03_tmp_out = -1, c03_tmp_err = -1;  /* scratch files */
+static int c03_capturing = 0;
+static unsigned c03_deadline = 0;               /* seconds per operation; C03_ALARM overrides the defaults */
+static char c03_stray[2][4096]; static size_t c03_stray_len[2];
+
+static void c03_init(void)
+{
+  c03_out = dup(1); c03_err = dup(2);
+  c03_tmp_out = open(".c03-stdout", O_RDWR | O_CREAT | O_TRUNC, 0600);
+  c03_tmp_err = open(".c03-stderr", O_RDWR | O_CREAT | O_TRUNC, 0600);
+  if (__sanitizer_set_report_fd) __sanitizer_set_report_fd((void *)(intptr_t)c03_err);
+  if (getenv("C03_ALARM")) c03_deadline = (unsigned)atoi(getenv("C03_ALARM"));
+}
+static void cap_begin(void)
+{
+  if (c03_tmp_out < 0) return;
+  fflush(stdout); fflush(stderr);
+  if (ftruncate(c03_tmp_out, 0) != 0 || ftruncate(c03_tmp_err, 0) != 0) return;
+  lseek(c03_tmp_out, 0, SEEK_SET); lseek(c03_tmp_err, 0, SEEK_SET);
+  dup2(c03_tmp_out, 1); dup2(c03_tmp_err, 2);
+  c03_capturing = 1;
+}
+static void cap_end(void)
+{
+  int k;
+  if (!c03_capturing) return;
+  fflush(stdout); fflush(stderr);
+  dup2(c03_out, 1); dup2(c03_err, 2);
+  c03_capturing = 0;
+  for (k = 0; k < 2; k++) {
+    int fd = k ? c03_tmp_err : c03_tmp_out; ssize_t n;
+    lseek(fd, 0, SEEK_SET);
+    n = read(fd, c03_stray[k], sizeof c03_stray[k]);
+    c03_stray_len[k] = n > 0 ? (size_t)n : 0;
+  }
+}
+/* appended to the result line of the operation that made the capture */
+static void cap_report(void)
+{
+  int k;
+  for (k = 0; k < 2; k++)
+    if (c03_stray_len[k]) {
+      size_t i;
+      printf(" %s ", k ? "STRAY-STDERR" : "STRAY-STDOUT");
+      for (i = 0; i < c03_stray_len[k]; i++) printf("%02x", (unsigned char)c03_stray[k][i]);
+      c03_stray_len[k] = 0;
+    }
+}
+void __wrap_exit(int status)
+{
+  if (c03_capturing) cap_end();
+  printf("EXIT-CALLED %d", status); cap_report(); printf("\n"); fflush(stdout);
+  _exit(77);
+}
+static void c03_alarm(int sig)
+{
+  static const char msg[] = "TIMEOUT\n";
+  (void)sig;
+  if (c03_capturing) { dup2(c03_out, 1); dup2(c03_err, 2); }
+  if (write(1, msg, sizeof msg - 1) < 0) _exit(79);
+  _exit(78);
+}
+
+static unsigned char c03_covmap[1 << 16]; static unsigned long c03_cov;
+__attribute__((no_sanitize_coverage, no_sanitize("address", "undefined")))
+void __sanitizer_cov_trace_pc(void)
+{
+  uintptr_t pc = (uintptr_t)__builtin_return_address(0);
+  unsigned h = (unsigned)((pc * 0x9E3779B97F4A7C15ull) >> 45) & 0x7ffff;   /* 19 bits */
+  if (!(c03_covmap[h >> 3] & (1u << (h & 7)))) { c03_covmap[h >> 3] |= (unsigned char)(1u << (h & 7)); c03_cov++; }
+}
+
+static uint64_t fnv1a(const char *p, size_t n)
+{
+  uint64_t h = 0xcbf29ce484222325ull; size_t i;
+  for (i = 0; i < n; i++) { h ^= (unsigned char)p[i]; h *= 0x100000001b3ull; }
+  return h;
+}
+/* ---- END C03 (support) ---- */
 
 static config_t cfg;
 static int dtor_on = 0;
@@ -219,6 +317,17 @@ static ssize_t chunked_read(void *c, char *buf, size_t size)
   return (ssize_t)n;
 }
 
+/* a stream that delivers its data and then fails (C03: a failing fread must not kill the process) */
+static ssize_t failing_read(void *c, char *buf, size_t size)
+{
+  struct chunked *k = c; size_t n = k->len - k->pos;
+  if (n == 0) { errno = EIO; return -1; }
+  if (n > size) n = size;
+  if (k->chunk && n > k->chunk) n = k->chunk;
+  memcpy(buf, k->data + k->pos, n); k->pos += n;
+  return (ssize_t)n;
+}
+
 /* ---- C1011: descriptor count and LeakSanitizer hook ---- */
 #include <dirent.h>
 extern int __lsan_do_recoverable_leak_check(void) __attribute__((weak));
@@ -234,13 +343,113 @@ static int count_fds(void)
 
 static void do_read(int r)
 {
-  printf("%d [%s]", r, logstr());
+  printf("%d [%s]", r, logstr()); cap_report();
+}
+
+/* ---- BEGIN C03 (ops) ---- */
+static long c03_maxname;
+static void c03_shape(const config_setting_t *s, long *nodes, long depth, long *maxdepth)
+{
+  int n = config_setting_length(s), i;
+  (*nodes)++;
+  if (depth > *maxdepth) *maxdepth = depth;
+  if (s->name && (long)strlen(s->name) > c03_maxname) c03_maxname = (long)strlen(s->name);
+  for (i = 0; i < n; i++) c03_shape(config_setting_get_elem(s, i), nodes, depth + 1, maxdepth);
+}
+/* nested text built from one rule shared with the model (Main.lean, deepNestText) */
+static char *c03_deepnest(const char *kind, long levels, int closed)
+{
+  const char *pre, *open, *mid, *close, *post;
+  size_t cap; char *t, *q; long i;
+  if (!strcmp(kind, "list")) { pre = "a="; open = "("; mid = ""; close = ")"; post = ";"; }
+  else if (!strcmp(kind, "group")) { pre = ""; open = "a={"; mid = ""; close = "}"; post = ""; }
+  else if (!strcmp(kind, "array")) { pre = "a="; open = "([1,2],"; mid = "0"; close = ")"; post = ";"; }
+  else if (!strcmp(kind, "mixed")) { pre = "a=("; open = "{b=("; mid = ""; close = ")}"; post = ");"; }
+  else return NULL;
+  cap = strlen(pre) + (strlen(open) + strlen(close)) * (size_t)levels + strlen(mid) + strlen(post) + 1;
+  t = q = malloc(cap);
+  q += sprintf(q, "%s", pre);
+  for (i = 0; i < levels; i++) q += sprintf(q, "%s", open);
+  q += sprintf(q, "%s", mid);
+  if (closed) { for (i = 0; i < levels; i++) q += sprintf(q, "%s", close); q += sprintf(q, "%s", post); }
+  return t;
+}
+static void c03_write_digest(long depth)
+{
+  char *buf = NULL; size_t len = 0; FILE *m = open_memstream(&buf, &len);
+  config_write(&cfg, m); fclose(m);
+  if (depth <= 64) printf("%lu:%016llx", (unsigned long)len, (unsigned long long)fnv1a(buf, len)); else printf("skip");
+  free(buf);
+}
+static void print_dump_line(void);
+/* after a read: traverse, look up, write, remove, modify, write again, re-read, clear */
+static void c03_battery(void)
+{
+  config_setting_t *root = config_root_setting(&cfg), *s;
+  long nodes = 0, depth = 0; int n, r1 = -1, r2 = -1, a1, a2, iv = -1, rr;
+  c03_maxname = 0; c03_shape(root, &nodes, 0, &depth);
+  printf("battery d=%ld n=%ld dump=", depth, nodes);
+  { /* the text of the `dump` line, digested */
+    char *buf = NULL; size_t len = 0; FILE *saved = stdout; FILE *m = open_memstream(&buf, &len);
+    stdout = m; print_dump_line(); stdout = saved; fclose(m);
+    printf("%016llx", (unsigned long long)fnv1a(buf, len)); free(buf);
+  }
+  { const char *r = wf(root, NULL); printf(" wf=%s", r ? r : "ok"); }
+  if (depth <= 8 && nodes <= 400 && c03_maxname <= 200) {   /* lookup_all builds its paths in a 4 KiB buffer */
+    lk_count = 0; lk_fail = NULL; lookup_all(root);
+    printf(" lookup=%s", lk_fail ? "FAIL" : "ok");
+    if (lk_fail) { free((char *)lk_fail); lk_fail = NULL; }
+  } else printf(" lookup=skip");
+  { /* the chain of first children, addressed from the root by one path */
+    size_t cap = 64, len = 0; char *path = malloc(cap); const config_setting_t *k = root;
+    path[0] = 0;
+    while (config_setting_length(k) > 0) {
+      const config_setting_t *c = config_setting_get_elem(k, 0);
+      size_t need = (c->name ? strlen(c->name) : 3) + 2;
+      if (len + need + 1 > cap) { cap = (len + need + 1) * 2; path = realloc(path, cap); }
+      len += sprintf(path + len, "%s%s", len ? "." : "", c->name ? c->name : "[0]");
+      k = c;
+    }
+    printf(" spine=%s", (len == 0 || config_setting_lookup(root, path) == k) ? "ok" : "FAIL");
+    free(path);
+  }
+  printf(" w1="); c03_write_digest(depth);
+  n = config_setting_length(root);
+  if (n > 0) r1 = config_setting_remove_elem(root, 0);
+  n = config_setting_length(root);
+  if (n > 0) r2 = config_setting_remove_elem(root, (unsigned)(n - 1));
+  printf(" rm=%d,%d", r1, r2);
+  s = config_setting_add(root, "zz_c03", CONFIG_TYPE_INT);
+  a1 = s ? config_setting_set_int(s, 42) : -1;
+  s = config_setting_add(root, "zz_c03s", CONFIG_TYPE_STRING);
+  a2 = s ? config_setting_set_string(s, "battery \"q\"\n") : -1;
+  printf(" set=%d,%d", a1, a2);
+  nodes = 0; depth = 0; c03_shape(root, &nodes, 0, &depth);
+  printf(" w2="); c03_write_digest(depth);
+  printf(" get=%d", config_lookup_int(&cfg, "zz_c03", &iv) ? iv : -1);
+  cap_begin(); rr = config_read_string(&cfg, "x = 1; y = ( 1, \"two\", { z = 3.5; } );"); cap_end();
+  nodes = 0; depth = 0; c03_shape(config_root_setting(&cfg), &nodes, 0, &depth);
+  printf(" reread=%d:%ld", rr, nodes);
+  config_clear(&cfg);
+  printf(" clear=%d", config_setting_length(config_root_setting(&cfg)));
+  cap_report();
+}
+/* ---- END C03 (ops) ---- */
+
+static void print_dump_line(void)
+{
+  const char **f;
+  printf("cfg opts=%u tab=%d prec=%d dfmt=%d incdir=", (unsigned)config_get_options(&cfg), config_get_tab_width(&cfg), config_get_float_precision(&cfg), config_get_default_format(&cfg));
+  puthex(config_get_include_dir(&cfg)); printf(" dtor=%d hook=%lu files=[", dtor_on, (unsigned long)(uintptr_t)config_get_hook(&cfg));
+  for (f = cfg.filenames; f && *f; f++) { if (f != cfg.filenames) printf(","); puthex(*f); }
+  printf("] root="); dump(config_root_setting(&cfg));
 }
 
 int main(int argc, char **argv)
 {
   char *line = NULL; size_t cap = 0; ssize_t n;
   if (argc > 1 && chdir(argv[1]) != 0) { perror("chdir"); return 2; }
+  c03_init(); signal(SIGALRM, c03_alarm);
   config_init(&cfg);
   while ((n = getline(&line, &cap, stdin)) > 0) {
     char *w[8]; int nw = 0; char *tok, *save;
@@ -249,6 +458,7 @@ int main(int argc, char **argv)
     for (tok = strtok_r(line, " ", &save); tok && nw < 8; tok = strtok_r(NULL, " ", &save)) w[nw++] = tok;
     if (nw == 0) continue;
     log_reset();
+    alarm(c03_deadline ? c03_deadline : (!strcmp(w[0], "deepnest") || !strcmp(w[0], "battery")) ? 45 : 20);   /* C03: a hang is a failure */
     autoc = config_get_auto_convert(&cfg);
 #define OP(name, k) (!strcmp(w[0], name) && nw == (k))
     if (OP("init", 1)) { config_destroy(&cfg); config_init(&cfg); dtor_on = 0; printf("ok"); }
@@ -376,11 +586,11 @@ int main(int argc, char **argv)
     else if (OP("set_config_hook", 2)) { config_set_hook(&cfg, (void *)(uintptr_t)strtoul(w[1], NULL, 10)); printf("ok"); }
     else if (OP("clear", 1)) { config_clear(&cfg); printf("ok [%s]", logstr()); }
     else if (OP("destroy", 1)) { config_destroy(&cfg); printf("ok [%s]", logstr()); config_init(&cfg); dtor_on = 0; }
-    else if (OP("read_string", 2)) { char *s = unhex(w[1], NULL); do_read(config_read_string(&cfg, s ? s : "")); free(s); }
+    else if (OP("read_string", 2)) { char *s = unhex(w[1], NULL); int r; cap_begin(); r = config_read_string(&cfg, s ? s : ""); cap_end(); do_read(r); free(s); }
     else if (OP("read_stream", 2)) {
       size_t len; char *s = unhex(w[1], &len); FILE *f = fmemopen(len ? s : (char *)"", len ? len : 1, "r");
       if (!len) { fclose(f); f = fopen("/dev/null", "r"); }
-      do_read(config_read(&cfg, f)); fclose(f); free(s);
+      { int r; cap_begin(); r = config_read(&cfg, f); cap_end(); do_read(r); } fclose(f); free(s);
     }
     else if (OP("read_chunked", 3)) {
       /* a stream that delivers its data in pieces of at most <chunk> bytes */
@@ -388,9 +598,25 @@ int main(int argc, char **argv)
       cookie_io_functions_t io = { chunked_read, NULL, NULL, NULL };
       FILE *f = fopencookie(&ck, "r", io);
       if (ck.chunk % 2) setvbuf(f, NULL, _IONBF, 0);
-      do_read(config_read(&cfg, f)); fclose(f); free(s);
+      { int r; cap_begin(); r = config_read(&cfg, f); cap_end(); do_read(r); } fclose(f); free(s);
     }
-    else if (OP("read_file", 2)) { char *p = unhex(w[1], NULL); do_read(config_read_file(&cfg, p)); free(p); }
+    else if (OP("read_stream_fail", 3)) {
+      /* config_read on a stream that delivers <data> (in pieces of <chunk>) and whose next read then fails */
+      size_t len; char *s = unhex(w[2], &len); struct chunked ck = { s, len, 0, (size_t)atol(w[1]) };
+      cookie_io_functions_t io = { failing_read, NULL, NULL, NULL };
+      FILE *f = fopencookie(&ck, "r", io);
+      if (ck.chunk % 2) setvbuf(f, NULL, _IONBF, 0);
+      { int r; cap_begin(); r = config_read(&cfg, f); cap_end(); do_read(r); } fclose(f); free(s);
+    }
+    else if (OP("read_file_ioerr", 2)) {
+      /* config_read_file of a file that opens but whose first read fails (e.g. /proc/self/mem) */
+      char *p = unhex(w[1], NULL); int r; cap_begin(); r = config_read_file(&cfg, p); cap_end(); do_read(r); free(p);
+    }
+    else if (OP("read_string_ioerr", 3)) {
+      /* a text that includes such a file; w[1] names it for the model only */
+      char *s = unhex(w[2], NULL); int r; cap_begin(); r = config_read_string(&cfg, s ? s : ""); cap_end(); do_read(r); free(s);
+    }
+    else if (OP("read_file", 2)) { char *p = unhex(w[1], NULL); int r; cap_begin(); r = config_read_file(&cfg, p); cap_end(); do_read(r); free(p); }
     else if (OP("mkfile", 3)) {
       size_t len; char *p = unhex(w[1], NULL); char *c = unhex(w[2], &len); FILE *f;
       char *slash = strrchr(p, '/'); if (slash && slash != p) { *slash = 0; mkdir(p, 0777); *slash = '/'; }
@@ -435,14 +661,8 @@ int main(int argc, char **argv)
       libconfig_strvec_delete(libconfig_scanctx_cleanup(&sctx));
       config_destroy(&tmp); free(text);
     }
-    else if (OP("err", 1)) { printf("%d ", config_error_type(&cfg)); puthex(config_error_text(&cfg)); printf(" "); puthex(config_error_file(&cfg)); printf(" %d", config_error_line(&cfg)); }
-    else if (OP("dump", 1)) {
-      const char **f;
-      printf("cfg opts=%u tab=%d prec=%d dfmt=%d incdir=", (unsigned)config_get_options(&cfg), config_get_tab_width(&cfg), config_get_float_precision(&cfg), config_get_default_format(&cfg));
-      puthex(config_get_include_dir(&cfg)); printf(" dtor=%d hook=%lu files=[", dtor_on, (unsigned long)(uintptr_t)config_get_hook(&cfg));
-      for (f = cfg.filenames; f && *f; f++) { if (f != cfg.filenames) printf(","); puthex(*f); }
-      printf("] root="); dump(config_root_setting(&cfg));
-    }
+    else if (OP("err", 1) || OP("errio", 1)) { printf("%d ", config_error_type(&cfg)); puthex(config_error_text(&cfg)); printf(" "); puthex(config_error_file(&cfg)); printf(" %d", config_error_line(&cfg)); }
+    else if (OP("dump", 1)) print_dump_line();
     else if (OP("wf", 1)) { const char *r = wf(config_root_setting(&cfg), NULL); printf("wf %s", r ? r : "ok"); }
     else if (OP("lookup_all", 1)) {
       lk_count = 0; lk_fail = NULL; lookup_all(config_root_setting(&cfg));
@@ -465,7 +685,19 @@ int main(int argc, char **argv)
       do_read(r); printf(" %s", ok ? "stream-ok" : "stream-bad"); free(s);
     }
     /* END C1011 */
+    /* ---- BEGIN C03 (dispatch) ---- */
+    else if (OP("battery", 1)) c03_battery();
+    else if (OP("leakcheck3", 1)) printf("leakcheck %d", __lsan_do_recoverable_leak_check ? __lsan_do_recoverable_leak_check() : 0);
+    else if (OP("deepnest", 4)) {
+      char *t = c03_deepnest(w[1], atol(w[2]), atoi(w[3]));
+      if (!t || atol(w[2]) < 0 || atol(w[2]) > 100000) printf("bad-op");
+      else { int r; cap_begin(); r = config_read_string(&cfg, t); cap_end(); do_read(r); }
+      free(t);
+    }
+    else if (OP("cov", 1)) printf("cov %lu", c03_cov);
+    /* ---- END C03 (dispatch) ---- */
     else printf("bad-op");
+    alarm(0);
     printf("\n");
     fflush(stdout);
   }
